@@ -28,7 +28,7 @@ import (
 	"verif/vk"
 )
 
-const c15Rule = "for a (dictionary, message type) a conforming message is generated from the independent spec tree (required members always, optional by coin, groups 1-3 entries in declaration order, values from the type grammar or the declared enumeration), serialised in specification order, parsed with the dictionaries as the session does, validated under one of the 32 validator settings; then exactly one mutation of a listed kind is applied; non-trivial = message with >=1 group or any mutated case; distinct = distinct (message bytes, settings)"
+const c15Rule = "for a (dictionary, message type) a conforming message is generated from the independent spec tree (required members always, optional by coin, groups 1-3 entries in declaration order, values from the type grammar or the declared enumeration), serialised in specification order, parsed with the dictionaries as the session does, validated under one of the 32 validator settings; then exactly one mutation of a listed kind is applied; settings route: a session built from a settings file naming any subset of the five validation switches (Y/N/left out) receives a conforming order or one with a defect a switch governs, and must deliver or reject it exactly as the validator built directly from the same values; non-trivial = message with >=1 group or any mutated case (settings route: a defect probe under at least one written switch); distinct = distinct (message bytes, settings)"
 
 func c15() *stats.Collector {
 	c := stats.Get("C15")
